@@ -20,6 +20,12 @@ perturbed component moves a sample across a pixel boundary (position k+1/2 -+ ti
 edge of the source.  A generator-side filter (`exact_ok`) keeps only requests on which double
 arithmetic (numpy's own `linspace`, the link lambdas) rounds every sample to the same pixel as exact
 rational arithmetic, so the Lean model (exact `Rat`) stays the reference.
+
+Round 3 (argument object identity): `seq` histories may pass ONE caller-owned bounds list object to several
+requests and edit it in place in between (`b[i] = k`, a replaced tuple, append / pop, `b[:] = ...`), submit an
+equal fresh copy, and overwrite a returned buffer in place; the Spec of each request is the uncached answer for
+the CURRENT contents of its arguments (Model/C16Args.lean: stored keys own | ref, storage policy).  `img` calls
+may re-use one caller-owned `view` / `bounds` list and overwrite the returned image.
 """
 import gc
 import itertools
@@ -198,8 +204,10 @@ def canon_arr(a):
     return ["ok", [int(s) for s in a.shape], cells]
 
 
-def run_request(bw, req, prefix="k"):
-    """req = ["req", data, bounds, target, what, broadcast, cid]  → canonical answer"""
+def run_request(bw, req, prefix="k", bounds_obj=None, raw=None):
+    """req = ["req", data, bounds, target, what, broadcast, cid]  → canonical answer
+    bounds_obj: the caller-owned list object to pass as `bounds` (round 3; default: a list built for this
+    call); raw: a list that receives the returned object (None for an exception)"""
     _, d, bounds, t, what, bc, cid = req
     kw = {}
     if what[0] == "c":
@@ -213,9 +221,12 @@ def run_request(bw, req, prefix="k"):
         kw["target_cid"] = bw.pix(what[1], what[2])
     else:
         kw["subset_state"] = bw.states[what[1]]
+    if raw is not None:
+        raw.append(None)
     try:
         arr = FRB.compute_fixed_resolution_buffer(
-            bw.datas[d], [bound_py(b) for b in bounds], target_data=bw.datas[t], broadcast=bool(bc),
+            bw.datas[d], [bound_py(b) for b in bounds] if bounds_obj is None else bounds_obj,
+            target_data=bw.datas[t], broadcast=bool(bc),
             cache_id=None if cid is None else "%s%d" % (prefix, cid), **kw)
     except ValueError:
         return "value-error"
@@ -227,7 +238,15 @@ def run_request(bw, req, prefix="k"):
         if e.args and e.args[0] == "Dependency on non-pixel component":
             return "exception"
         raise
-    return canon_arr(arr)
+    if raw is not None:
+        raw[-1] = arr
+    return canon_arr(arr)       # the contents at return time
+
+
+def fill_in_place(arr, v):
+    """the caller's `buf[...] = v` on a returned buffer (numpy scalars / 0-d results are immutable values)"""
+    if isinstance(arr, np.ndarray) and arr.ndim >= 1 and arr.flags.writeable:
+        arr[...] = v
 
 
 def req_sx(req):
@@ -1082,6 +1101,156 @@ def twin_worlds(tier, rng):
                 yield cw, rung
 
 
+# ------------------------------------------------------------------------------------------
+# round 3: argument object identity
+# ------------------------------------------------------------------------------------------
+#
+#   ["asg", oid, bounds]                 oid is new: `obj = [...]`; oid exists: `obj[:] = [...]` (in place)
+#   ["reqo", d, oid, t, what, bc, cid]   the request passes the list OBJECT oid as `bounds`
+#   ["set", oid, i, bound]               obj[i] = bound        (a scalar, or a replaced tuple)
+#   ["push", oid, bound] / ["pop", oid]  obj.append(bound) / obj.pop()
+#   ["edbuf", k, v]                      buf[...] = v on the array returned by the k-th request
+# A "req" with inline bounds passes a list built for that call (what every history did before).
+
+ARG_OPS = ("asg", "reqo", "set", "push", "pop", "edbuf")
+FILL_VALUES = [-77, 0, 1]
+
+
+def is_arg_history(ops):
+    return any(o[0] in ARG_OPS for o in ops)
+
+
+def valid_args(ops):
+    """every request names an existing non-empty list, `set` stays in range, `pop` leaves an element,
+    `edbuf` names an earlier request (what the generators guarantee; the shrinker must keep it)"""
+    lens, nreq = {}, 0
+    for o in ops:
+        k = o[0]
+        if k == "asg":
+            if len(o[2]) < 1:
+                return False
+            lens[o[1]] = len(o[2])
+        elif k == "reqo":
+            if lens.get(o[2], 0) < 1:
+                return False
+            nreq += 1
+        elif k == "req":
+            nreq += 1
+        elif k == "set":
+            if not (o[1] in lens and 0 <= o[2] < lens[o[1]]):
+                return False
+        elif k == "push":
+            if o[1] not in lens:
+                return False
+            lens[o[1]] += 1
+        elif k == "pop":
+            if lens.get(o[1], 0) < 2:
+                return False
+            lens[o[1]] -= 1
+        elif k == "edbuf":
+            if not (0 <= o[1] < nreq):
+                return False
+    return True
+
+
+def arg_history(cw, rng, maxlen, pair=None):
+    """one (or two) caller-owned bounds lists, edited in place between requests under one cache id and
+    submitted again: the slicing loop `b[i] = k`, a replaced tuple, append / pop (restored), `b[:] = ...`,
+    an equal fresh copy in another object, an edited result buffer, another attribute (ARRAY_CACHE misses
+    for another reason: PIXEL_CACHE alone is asked)."""
+    nds = len(cw["ds"])
+    if pair is None:
+        d = rng.randrange(nds)
+        t = d if rng.random() < 0.5 else rng.randrange(nds)
+    else:
+        d, t = pair
+    tshape = cw["ds"][t]["shape"]
+    cur = {0: [rand_bound(sz, rng, "s" if rng.random() < 0.5 else "r") for sz in tshape]}
+    for b in cur[0]:
+        if b[0] == "r" and b[3] < 1:
+            b[3] = 1
+    what = rand_what(cw, d, rng, allow_foreign=False)
+    bc = rng.random() < 0.85
+    cid = 0
+    ops = [["asg", 0, [list(b) for b in cur[0]]], ["reqo", d, 0, t, what, bc, cid]]
+    obj, nreq, nxt = 0, 1, 1
+    for _ in range(rng.randint(1, max(1, maxlen - 2))):
+        r = rng.random()
+        n = len(cur[obj])
+        if r < 0.40:                                           # slicing: another scalar at one position
+            i = rng.randrange(n)
+            sz = tshape[i] if i < len(tshape) else 2
+            # a scalar stays a scalar most of the time (the loop over slices)
+            scal = [j for j in range(n) if cur[obj][j][0] == "s"]
+            if scal and rng.random() < 0.8:
+                i = rng.choice(scal)
+                sz = tshape[i] if i < len(tshape) else 2
+            b = rand_bound(sz, rng, "s")
+            cur[obj][i] = b
+            ops.append(["set", obj, i, list(b)])
+        elif r < 0.55:                                         # a replaced tuple / scalar <-> range
+            i = rng.randrange(n)
+            b = rand_bound(tshape[i] if i < len(tshape) else 2, rng)
+            if b[0] == "r" and b[3] < 1:
+                b[3] = 1
+            cur[obj][i] = b
+            ops.append(["set", obj, i, list(b)])
+        elif r < 0.67:                                         # append, (ask), pop: restored
+            b = rand_bound(2, rng, "s")
+            ops.append(["push", obj, list(b)])
+            if rng.random() < 0.5:
+                ops.append(["reqo", d, obj, t, what, bc, cid])
+                nreq += 1
+            ops.append(["pop", obj])
+        elif r < 0.75:                                         # b[:] = [...]  (same object, new contents)
+            new = [rand_bound(sz, rng, b0[0]) for sz, b0 in zip(tshape, cur[obj])] if len(cur[obj]) == len(tshape) else \
+                [rand_bound(sz, rng) for sz in tshape]
+            for b in new:
+                if b[0] == "r" and b[3] < 1:
+                    b[3] = 1
+            cur[obj] = new
+            ops.append(["asg", obj, [list(b) for b in new]])
+        elif r < 0.85:                                         # an equal fresh copy / the other object
+            if len(cur) < 2 or rng.random() < 0.5:
+                other = nxt
+                nxt += 1
+                cur[other] = [list(b) for b in cur[obj]]
+                ops.append(["asg", other, [list(b) for b in cur[other]]])
+            else:
+                other = rng.choice([o for o in cur if o != obj])
+            obj = other
+        elif r < 0.93:                                         # the caller edits a returned buffer in place
+            ops.append(["edbuf", rng.randrange(nreq) if rng.random() < 0.3 else nreq - 1, rng.choice(FILL_VALUES)])
+        else:                                                  # another attribute / selection
+            what = rand_what(cw, d, rng, allow_foreign=False)
+        if rng.random() < 0.08:
+            ops.append(["req", d, [list(b) for b in cur[obj]], t, what, bc, cid])     # a list built for the call
+        else:
+            ops.append(["reqo", d, obj, t, what, bc, cid])
+        nreq += 1
+    return ops
+
+
+def slice_loop_history(cw, rng, d, t):
+    """`for k in ...: bounds[i] = k; frb(..., bounds, cache_id=...)` over one scalar position"""
+    tshape = cw["ds"][t]["shape"]
+    bounds = [full_bound(sz) if rng.random() < 0.7 else rand_bound(sz, rng, "r") for sz in tshape]
+    for b in bounds:
+        if b[0] == "r" and b[3] < 1:
+            b[3] = 1
+    i = rng.randrange(len(tshape))
+    ks = list(range(tshape[i]))
+    rng.shuffle(ks)
+    ks = ks[:rng.randint(2, 4)] if len(ks) >= 2 else [0, 1]
+    bounds[i] = ["s", ks[0]]
+    what = rng.choice([["c", d, 0], ["c", d, 0], ["st", 5 * d], ["px", d, 0]])
+    ops = [["asg", 0, [list(b) for b in bounds]]]
+    for k in ks:
+        ops.append(["set", 0, i, ["s", k]])
+        ops.append(["reqo", d, 0, t, what, True, 0])
+    return ops
+
+
 def shrink_world_req(cw, reqs):
     """smaller datasets are hard to do generically (bounds refer to sizes): shrink requests only"""
     return iter(())
@@ -1311,6 +1480,13 @@ class Seq(_Base):
             for _ in range(1 if quick else 2):
                 for ops in probe_histories(cw, rng):
                     yield [cw, ops]
+            # round 3: argument object identity - caller-owned bounds lists edited in place between
+            # requests and submitted again, equal fresh copies, edited result buffers
+            nds = len(cw["ds"])
+            for _ in range(3 if quick else 6):
+                yield [cw, arg_history(cw, rng, maxlen)]
+            d = rng.randrange(nds)
+            yield [cw, slice_loop_history(cw, rng, d, d if rng.random() < 0.6 else rng.randrange(nds))]
             # finding strata: in-place edits of selection objects / of component arrays
             for _ in range(1 if quick else 2):
                 yield [cw, self.edit_history(cw, rng, maxlen)]
@@ -1346,14 +1522,36 @@ class Seq(_Base):
 
     def run_impl(self, case):
         cw, ops = case
-        mutating = any(o[0] != "req" for o in ops)
+        mutating = any(o[0] in ("edit", "setc") for o in ops)
         bw = self.built(cw, fresh=mutating)
         cur_states = list(cw["states"])
         out = []
+        objs, rets = {}, []          # caller-owned bounds lists by id; returned objects by request index
         try:
             for o in ops:
                 if o[0] == "req":
-                    out.append(run_request(bw, o))
+                    out.append(run_request(bw, o, raw=rets))
+                elif o[0] == "reqo":
+                    _, d, oid, t, what, bc, cid = o
+                    out.append(run_request(bw, ["req", d, None, t, what, bc, cid],
+                                           bounds_obj=objs.setdefault(oid, []), raw=rets))
+                elif o[0] == "asg":
+                    new = [bound_py(b) for b in o[2]]
+                    if o[1] in objs:
+                        objs[o[1]][:] = new          # the same object, edited in place
+                    else:
+                        objs[o[1]] = new
+                elif o[0] == "set":
+                    if o[1] in objs and 0 <= o[2] < len(objs[o[1]]):
+                        objs[o[1]][o[2]] = bound_py(o[3])
+                elif o[0] == "push":
+                    objs.setdefault(o[1], []).append(bound_py(o[2]))
+                elif o[0] == "pop":
+                    if len(objs.get(o[1], [])) >= 2:
+                        objs[o[1]].pop()
+                elif o[0] == "edbuf":
+                    if 0 <= o[1] < len(rets):
+                        fill_in_place(rets[o[1]], o[2])
                 elif o[0] == "edit":
                     bw.edit_state(bw.states[o[1]], cur_states[o[1]], o[2])
                     cur_states[o[1]] = o[2]
@@ -1372,6 +1570,18 @@ class Seq(_Base):
         for o in ops:
             if o[0] == "req":
                 sops.append(req_sx(o))
+            elif o[0] == "reqo":
+                sops.append(["reqo", o[1], o[2], o[3], list(o[4]), bool(o[5]), o[6]])
+            elif o[0] == "asg":
+                sops.append(["asg", o[1], [bound_sx(b) for b in o[2]]])
+            elif o[0] == "set":
+                sops.append(["set", o[1], o[2], bound_sx(o[3])])
+            elif o[0] == "push":
+                sops.append(["push", o[1], bound_sx(o[2])])
+            elif o[0] == "pop":
+                sops.append(["pop", o[1]])
+            elif o[0] == "edbuf":
+                sops.append(["edbuf", o[1], int(o[2])])
             elif o[0] == "edit":
                 sops.append(["edit", o[1], state_sx(o[2])])
             else:
@@ -1381,6 +1591,9 @@ class Seq(_Base):
     def nontrivial(self, case, po):
         if "fine" in case[0]:     # a stale hit is observable: the requests have >= 2 different answers
             return isinstance(po, list) and len({json.dumps(a) for a in po}) >= 2
+        if is_arg_history(case[1]):   # an edit between two requests that name a list object
+            return sum(1 for o in case[1] if o[0] == "reqo") >= 2 and isinstance(po, list) and \
+                len({json.dumps(a) for a in po}) >= 2
         return len(case[1]) >= 3
 
     def signature(self, case, pyout, res):
@@ -1389,13 +1602,19 @@ class Seq(_Base):
             return {"construct": "selection-edited-in-place"}
         if any(o[0] == "setc" for o in ops):
             return {"construct": "data-changed-in-place"}
+        if any(o[0] == "edbuf" for o in ops):
+            return {"construct": "returned-buffer-edited-in-place"}
+        if is_arg_history(ops):
+            return {"construct": "bounds-list-edited-in-place"}
         return {"construct": "requests-only"}
 
     def shrink(self, case):
         cw, ops = case
         for i in range(len(ops)):
             if len(ops) > 1:
-                yield [cw, ops[:i] + ops[i + 1:]]
+                c2 = ops[:i] + ops[i + 1:]
+                if valid_args(c2):
+                    yield [cw, c2]
         for i, o in enumerate(ops):
             if o[0] == "req":
                 for c2 in Single().shrink([cw, o]):
@@ -1420,6 +1639,17 @@ def edited(e, rng):
 # ------------------------------------------------------------------------------------------
 # image layer states
 # ------------------------------------------------------------------------------------------
+
+# round 3: a call may end with a marker - "same": the `view` / `bounds` argument is ONE caller-owned list
+# object per call sequence, refilled in place (`lst[:] = ...`) and passed again; "ed": the caller overwrites
+# the returned image in place (`img[...] = -77`) after looking at it; "same+ed": both.  The markers are not
+# sent to the model: get_sliced_data builds its own bounds list per call and (F18) hands out private buffers.
+IMG_MARKS = ("same", "ed", "same+ed")
+
+
+def strip_mark(c):
+    return (c[:-1], c[-1]) if isinstance(c[-1], str) and c[-1] in IMG_MARKS else (c, "")
+
 
 SLICE_POOL = [[None, None, None], [None, None, None], [1, None, None], [None, -1, None], [0, 2, None],
               [None, None, 2], [1, 4, 2], [None, None, -1], [None, None, -2], [3, 0, -1], [-2, None, None],
@@ -1475,6 +1705,14 @@ class Img(_Base):
                     else:
                         sy, sx_ = cw["ds"][ref]["shape"][y], cw["ds"][ref]["shape"][x]
                         calls.append(["bounds", slices, rand_bound(sy, rng, "r"), rand_bound(sx_, rng, "r")])
+                    if rng.random() < 0.3:                      # the same request once more (an ARRAY_CACHE hit)
+                        calls.append([list(x_) if isinstance(x_, list) else x_ for x_ in calls[-1]])
+                mode = rng.random()
+                if mode < 0.5:                                  # caller-owned argument lists / edited results
+                    for c in calls:
+                        mk = rng.choice(["same", "same", "ed", "same+ed", ""])
+                        if mk:
+                            c.append(mk)
                 yield [cw, layer, calls]
 
     def worlds(self, tier, rng):
@@ -1522,7 +1760,9 @@ class Img(_Base):
             bw.keep.extend([vs, refl, lay])
             fn = {"sum": np.nansum, "max": np.nanmax}
             out = []
+            vobj, bobj = [], []          # the caller's own `view` / `bounds` list objects
             for c in calls:
+                c, mark = strip_mark(c)
                 slices = []
                 for s in c[1]:
                     if s[0] == "i":
@@ -1536,9 +1776,16 @@ class Img(_Base):
                         warnings.simplefilter("ignore")
                         if c[0] == "view":
                             v = [slice(*s[1:]) for s in c[2]]
+                            if "same" in mark:
+                                vobj[:] = v
+                                v = vobj
                             img = lay.get_sliced_data(view=v if v else None)
                         else:
-                            img = lay.get_sliced_data(bounds=[bound_py(c[2]), bound_py(c[3])])
+                            b = [bound_py(c[2]), bound_py(c[3])]
+                            if "same" in mark:
+                                bobj[:] = b
+                                b = bobj
+                            img = lay.get_sliced_data(bounds=b)
                 except ValueError:
                     out.append("value-error")
                 except IncompatibleAttribute:
@@ -1547,6 +1794,8 @@ class Img(_Base):
                     out.append("incompatible-data")
                 else:
                     out.append(canon_arr(img))
+                    if "ed" in mark:
+                        fill_in_place(img, -77)
             return out
         finally:
             type(self)._built = (None, None)
@@ -1555,6 +1804,7 @@ class Img(_Base):
         cw, layer, calls = case
         scalls = []
         for c in calls:
+            c, _ = strip_mark(c)
             if c[0] == "view":
                 scalls.append(["view", c[1], c[2]])
             else:
@@ -1567,7 +1817,12 @@ class Img(_Base):
     def signature(self, case, pyout, res):
         neg = any(c[0] == "view" and any((s[3] or 1) < 0 for s in c[2]) for c in case[2]) or \
             any(s[0] == "agg" and (s[3] or 1) < 0 for c in case[2] for s in c[1])
-        return {"construct": "negative-step-slice" if neg else "image"}
+        if neg:
+            return {"construct": "negative-step-slice"}
+        marks = {strip_mark(c)[1] for c in case[2]}
+        if any("ed" in m for m in marks):
+            return {"construct": "image-returned-buffer-edited"}
+        return {"construct": "image-own-lists" if marks - {""} else "image"}
 
     def shrink(self, case):
         cw, layer, calls = case
@@ -1579,7 +1834,7 @@ class Img(_Base):
                 for j in range(len(c[2])):
                     if c[2][j] != ["sl", None, None, None]:
                         v2 = c[2][:j] + [["sl", None, None, None]] + c[2][j + 1:]
-                        yield [cw, layer, calls[:i] + [["view", c[1], v2]] + calls[i + 1:]]
+                        yield [cw, layer, calls[:i] + [["view", c[1], v2] + c[3:]] + calls[i + 1:]]
             for j, s in enumerate(c[1]):
                 if s[0] == "agg":
                     s2 = c[1][:j] + [["i", 0]] + c[1][j + 1:]
@@ -1589,7 +1844,10 @@ class Img(_Base):
 PROP = Property(
     id="C16",
     title="A fixed-resolution buffer equals nearest-pixel resampling through the links",
-    theorems=["C16.rne_nearest", "C16.nearest_candidates", "C16.nearest_unique_off_ties", "C16.frb_pointwise", "C16.frb_accepted", "C16.frb_defined_iff", "C16.frb_answer_accepted", "C16.frb_indep_irrelevant_scalar", "C16.wildcard_key_exact", "C16.frb_indep_irrelevant_scalars", "C16.dimensions_correct", "C16.world_leaf_wf", "C16.w2p_node_wf", "C16.cache_step_sound", "C16.cache_sound", "C16.cache_sound_from", "C16.cache_key_exact_needed", "C16.hit_test_as_coded", "C16.allclose_bounds_stale", "C16.slice_to_bound_positions", "C16.sliced_request_denotes", "C16.selection_edited_in_place_stale", "C16.data_changed_in_place_stale", "C16.slice_to_bound_pinned_wrong"],
+    theorems=["C16.rne_nearest", "C16.nearest_candidates", "C16.nearest_unique_off_ties", "C16.frb_pointwise", "C16.frb_accepted", "C16.frb_defined_iff", "C16.frb_answer_accepted", "C16.frb_indep_irrelevant_scalar", "C16.wildcard_key_exact", "C16.frb_indep_irrelevant_scalars", "C16.dimensions_correct", "C16.world_leaf_wf", "C16.w2p_node_wf", "C16.cache_step_sound", "C16.cache_sound", "C16.cache_sound_from", "C16.cache_key_exact_needed", "C16.hit_test_as_coded", "C16.allclose_bounds_stale", "C16.slice_to_bound_positions", "C16.sliced_request_denotes", "C16.selection_edited_in_place_stale", "C16.data_changed_in_place_stale", "C16.slice_to_bound_pinned_wrong",
+              "C16.cache_step_sound_args", "C16.cache_sound_unshared", "C16.cache_sound_args", "C16.owned_invariant",
+              "C16.policy_as_coded_owns", "C16.args_fresh_is_value_model", "C16.caller_list_stored_stale",
+              "C16.returned_buffer_shared_stale"],
     families=[Single(), Seq(), Img()],
     trusted_base=["numpy linspace / meshgrid / round (half-to-even) / broadcasting / unbroadcast / fancy indexing are modelled by value (Model/C16FRB.lean); exact on the small dyadic inputs generated; on the fine-ladder inputs (magnitudes 2^-20 .. 2^70, steps down to 1 ulp) a generator-side filter keeps the requests on which numpy's own linspace and the link lambdas in doubles round every sample to the same pixel as exact rationals",
                   "LinkManager.discover_links is not modelled: the harness derives the translate_pixel recursion trees with a port of the same loop and discards worlds whose result depends on set iteration order",
@@ -1598,6 +1856,6 @@ PROP = Property(
                  "request targets: main / pixel components of the requested dataset, components of another or of no dataset (-> IncompatibleAttribute), selection objects over the requested dataset's components and dataset-independent ElementSubsetStates; pixel components / pixel-range selections of ANOTHER linked dataset (derivable through links) are not modelled and not generated",
                  "no dask components; bounds passed as a list; unique component uuids (no session-restored duplicates)",
                  "in-place changes of component arrays between requests are outside the property (for unchanged data): cached requests after such a change are compared with the model only"],
-    rule="worlds: structured (every target/source ndim pair x link kind, wcs n=1..3, coupled, chains, twins) + seeded random; per world: the whole reference grid and seeded bounds per dataset pair (frb), 4-8 random histories + one-component collision probes + finding strata (seq), 3-6 layer states with 1-7 get_sliced_data calls (img); fine ladder: per magnitude x rung (1 ulp of the bound / of the position, 1e-12 .. 1e-3 relative, 2^-27 / 2^-40 absolute) x boundary offset a world, single requests with samples on half-integer source positions -+ one step (frb), histories in which one float component (scalar, lo, hi, both, n, int-vs-float type, twin link offset / scale) walks across the boundary under one cache id (seq); non-trivial = source != reference and an array returned (frb), history of >= 3 operations / fine history with >= 2 different answers (seq), at least one image returned (img)",
-    partial_note="cache_sound needs unchanged selection objects: an in-place edited selection under the same cache id returns the stale buffer (F15, known); everything else is proved without restriction on the repaired tree",
+    rule="worlds: structured (every target/source ndim pair x link kind, wcs n=1..3, coupled, chains, twins) + seeded random; per world: the whole reference grid and seeded bounds per dataset pair (frb), 4-8 random histories + one-component collision probes + finding strata (seq), 3-6 layer states with 1-7 get_sliced_data calls (img); fine ladder: per magnitude x rung (1 ulp of the bound / of the position, 1e-12 .. 1e-3 relative, 2^-27 / 2^-40 absolute) x boundary offset a world, single requests with samples on half-integer source positions -+ one step (frb), histories in which one float component (scalar, lo, hi, both, n, int-vs-float type, twin link offset / scale) walks across the boundary under one cache id (seq); argument identity (round 3): per world 3-6 histories in which one or two caller-owned bounds list objects are edited in place between requests (another scalar at one position, a replaced tuple, append/pop restored, slice assignment, an equal fresh copy in another object, an overwritten result buffer, another attribute) + one slicing loop (seq), img calls that re-use one view / bounds list object and overwrite the returned image; non-trivial = source != reference and an array returned (frb), history of >= 3 operations / fine history with >= 2 different answers (seq), at least one image returned (img)",
+    partial_note="cache_sound needs unchanged selection objects: an in-place edited selection under the same cache id returns the stale buffer (F15, known); everything else is proved without restriction on the repaired tree (in-place edits of bounds lists and of returned buffers included: cache_sound_args)",
 )
